@@ -111,6 +111,8 @@ def judge_mask_ops(obs, mask, box, image, fill, copy, dmask, tag):
 
     def unchanged(what):
         obs.check(fp(image) == before, 'image-modified', f'{what} modified the input image ({tag})', 'image-unchanged')
+    made = []                     # results that belong to the caller (edited in place at the end)
+    mask_fp0 = S.fingerprint(mask)
 
     # -- overlap slices through the mask
     sl, ss = mask.get_overlap_slices(shape)
@@ -133,6 +135,7 @@ def judge_mask_ops(obs, mask, box, image, fill, copy, dmask, tag):
             for y in range(max(y0, 0), min(y1, shape[0])):
                 for x in range(max(x0, 0), min(x1, shape[1])):
                     exp[y, x] = data[y - y0, x - x0]
+            made.append(('to_image', res))
             obs.check(res is not None and same(res, exp), 'to_image-wrong-placement',
                       f'to_image: box {box} image {shape} ({tag}) differs from placing the mask at (ixmin, iymin)', 'to_image')
 
@@ -147,6 +150,8 @@ def judge_mask_ops(obs, mask, box, image, fill, copy, dmask, tag):
         obs.violation('cutout-raised', f'cutout raised {type(exc).__name__}: {exc} ({tag}, fill={fill})')
         res = 'raised'
     unchanged('cutout')
+    if copy and not isinstance(res, str):
+        made.append(('cutout(copy=True)', res))
     if not isinstance(res, str):
         if ov is None:
             obs.check(res is None, 'cutout-not-None', f'cutout: no overlap (box {box}, image {shape}) but got {type(res).__name__}', 'none-on-no-overlap')
@@ -183,6 +188,8 @@ def judge_mask_ops(obs, mask, box, image, fill, copy, dmask, tag):
         obs.violation(key, f'multiply raised {type(exc).__name__}: {exc} ({tag}, fill={fill}, image dtype {imv.dtype}, weights dtype {data.dtype})')
         res = 'raised'
     unchanged('multiply')
+    if not isinstance(res, str):
+        made.append(('multiply', res))
     if not isinstance(res, str):
         if ov is None:
             obs.check(res is None, 'multiply-not-None', f'multiply: no overlap but got {type(res).__name__}', 'none-on-no-overlap')
@@ -236,6 +243,18 @@ def judge_mask_ops(obs, mask, box, image, fill, copy, dmask, tag):
         obs.check(ok, 'get_values-wrong', f'get_values: box {box} image {shape} ({tag}): got {np.asarray(rv).tolist()[:8]} expected {exp[:8]}', 'get_values')
         if unit is not None and len(exp):
             obs.check(unit_of(res) == unit, 'get_values-unit-lost', f'get_values lost the unit {unit}', 'unit')
+        made.append(('get_values', res))
+    # what a method returned is the caller's: writing into it must reach neither the mask nor the image
+    for name, r_ in made:
+        a = val(r_) if r_ is not None else None
+        if isinstance(a, np.ndarray) and a.size and a.flags.writeable:
+            a[...] = True if a.dtype.kind == 'b' else 3
+            obs.count('results-edited-in-place')
+            ok_m, ok_i = S.fingerprint(mask) == mask_fp0, fp(image) == before
+            obs.check(ok_m, 'result-aliases-mask', f'writing into the result of {name} changed the RegionMask (box {box}, image {shape}, {tag})', 'result-independent')
+            obs.check(ok_i, 'result-aliases-image', f'writing into the result of {name} changed the image (box {box}, image {shape}, {tag})', 'result-independent')
+            if not (ok_m and ok_i):
+                break
 
 
 def weights(nrng, h, w, pattern):
@@ -330,6 +349,8 @@ def run_case(case, obs):
         x0, y0 = int(nrng.integers(-mag, mag + 1)), int(nrng.integers(-mag, mag + 1))
         if nrng.random() < 0.6:
             x0, y0 = int(nrng.integers(-12, 40)), int(nrng.integers(-12, 40))
+        if nrng.random() < 0.15:
+            x0, y0 = 0, 0                      # the box at the image origin
         box = (x0, x0 + w, y0, y0 + h)
         pat = ['ones', 'frac', 'int', 'checker', 'signed', 'bool', 'uint8'][nrng.integers(7)]
         mask = RegionMask(weights(nrng, h, w, pat), RegionBoundingBox(*box))
@@ -337,6 +358,8 @@ def run_case(case, obs):
     shape = (int(nrng.integers(0, 48)), int(nrng.integers(0, 64)))
     if nrng.random() < 0.1:
         shape = (int(nrng.integers(0, 3)), int(nrng.integers(0, 3)))
+    elif nrng.random() < 0.12:
+        shape = (box[3] - box[2], box[1] - box[0])            # an image of exactly the mask's shape (the box may or may not sit at the origin)
     kind = ['int16', 'int64', 'float32', 'float64', 'float64-nonfinite', 'quantity', 'uint16', 'bool', 'view', 'view', 'int64-big'][nrng.integers(11)]
     image = make_image(nrng, shape, kind)
     fills = [0.0, 7.0, -1.5, np.nan, np.inf, -np.inf]
